@@ -63,6 +63,14 @@ def oracle_expr(c, dname):
 
 def gen_cases(rng, nprog, nif):
     progs, cases = [], []
+    for p, goals in eg.corpus_c06():
+        pidx = len(progs)
+        progs.append(p)
+        for g in goals:
+            cases.append(Case(pidx, p, g, "corpus"))
+            n = eg.without_hyps(g)
+            if eg.goal_text(n) not in [c.text for c in cases if c.pidx == pidx]:
+                cases.append(Case(pidx, p, n, "nohyp"))
     for _ in range(nprog):
         p = eg.gen_program(rng)
         if rng.random() < 0.3:
